@@ -200,14 +200,15 @@ class PumpStdType(RegressionStdType):
         # no reverse flow - for vdot < 0, assume bypassing
         n = np.arange(len(self.reg_par), 0, -1)
         if np.iterable(vdot_m3_per_s):
+            vdot_m3_per_s = np.asarray(vdot_m3_per_s, dtype=float)
             results = np.zeros(len(vdot_m3_per_s), dtype=float)
             if any(vdot_m3_per_s < 0):
                 logger.debug("Reverse flow observed in a %s pump. "
                              "Bypassing without pressure change is assumed" % str(self.name))
             mask = vdot_m3_per_s >= 0
             # no negative pressure lift - bypassing always allowed:
-            results[mask] = \
-                np.where(mask, np.sum(self.reg_par * (vdot_m3_per_s[mask][:, None] * 3600) ** (n - 1), axis=1), 0)
+            results[mask] = np.maximum(
+                0, np.sum(self.reg_par * (vdot_m3_per_s[mask][:, None] * 3600) ** (n - 1), axis=1))
         else:
             if vdot_m3_per_s < 0:
                 logger.debug("Reverse flow observed in a %s pump. "
